@@ -169,7 +169,8 @@ SRC_TIE = {
             'Entry': ['dumps', 'loads']},
     'C07': {'Pds': ['_pds_to_dict', '_icc_to_dict', '_pds_to_de'], 'Field': ['_string_to_pytype'],
             'IpmReader': ['IpmReader.__next__', 'VbsReader.__next__'],
-            'IpmBlocked': ['IpmReaderB_next', 'VbsReaderB_next', 'Unblock1014.read']},
+            'IpmBlocked': ['IpmReaderB_next', 'VbsReaderB_next', 'Unblock1014.read'],
+            'FieldWhole': ['_iso8583_to_field_whole', '_iso8583_to_field_frame', '_string_to_pytype']},
     'C08': {'Pds': ['_pds_to_dict', '_icc_to_dict', '_pds_to_de'], 'Bits': ['BitArray.tolist', 'BitArray.fromlist'],
             'Field': ['_get_field_length', '_iso8583_to_field_frame', '_string_to_pytype'],
             'Loop': ['_iso8583_to_dict_loop', '_iso8583_to_dict']},
